@@ -109,7 +109,7 @@ RetAccept(ev) ==
               G("C02", "ReallocToZeroFreesAndReturnsNull", ~NoNull(ev.p))
             ELSE IF ~NoNull(ev.p) THEN
               /\ G("C04", "ReallocFailsOnlyWhenMapFailed", c.failed)
-              /\ G("C04", "FailedReallocKeepsSourceBlock", ev.src_ok = 1)
+              /\ G("C04", "FailedReallocKeepsSourceBlock", Has(ev, "src_ok") /\ ev.src_ok = 1)
             ELSE IF ev.p = c.p THEN   \* stayed in place
               /\ G("C02", "InPlaceOnlyIfItFits", c.n <= c.usable)
               /\ G("C02", "PrefixPreserved", ev.prefix_ok = 1)
